@@ -12,7 +12,7 @@ theorem Good.add_roots {f : Forest} (hg : Good f) (ts : List HTree) (n' : Nat)
     Good { f with roots := f.roots ++ ts, next := n' } := by
   apply Good.of_nodup_below
   · show (handlesList (f.roots ++ ts)).Nodup
-    rw [handlesList_append]
+    rw [handlesList_append_ff]
     refine List.nodup_append.2 ⟨hg.nodup, hnd, ?_⟩
     intro a ha b hb' e
     have := hg.below a ha
@@ -21,7 +21,7 @@ theorem Good.add_roots {f : Forest} (hg : Good f) (ts : List HTree) (n' : Nat)
   · intro a ha
     show a < n'
     change a ∈ handlesList (f.roots ++ ts) at ha
-    rw [handlesList_append, List.mem_append] at ha
+    rw [handlesList_append_ff, List.mem_append] at ha
     rcases ha with ha | ha
     · have := hg.below a ha; omega
     · exact (hb a ha).2
